@@ -395,7 +395,10 @@ def solve_affine_equations_for(unknowns, equations):
 
     mat, rhs_mat = gaussian_elimination(mat, rhs_mat)
 
-    # FIXME /!\ Does not check for overdetermined system.
+    # a row without unknowns must read 0 = 0
+    for i_row in range(mat.shape[0]):
+        if not np.any(mat[i_row]) and np.any(rhs_mat[i_row]):
+            raise RuntimeError("the equations are inconsistent")
 
     result = {}
     for j, unknown in enumerate(unknowns):
@@ -404,6 +407,10 @@ def solve_affine_equations_for(unknowns, equations):
             raise RuntimeError(f"cannot uniquely solve for '{unknown}'")
 
         (nonz_row,) = nonz_row
+
+        if np.count_nonzero(mat[nonz_row]) != 1:
+            # another unknown shares the row: neither is determined
+            raise RuntimeError(f"cannot uniquely solve for '{unknown}'")
 
         if abs(mat[nonz_row, j]) != 1:
             raise RuntimeError(
